@@ -80,6 +80,26 @@ example : exIm24.WF := exIm24_wf
 theorem pixel_none_iff (im : ImageRaw) (hw : im.WF) (p : Pt) :
     im.pixel p = none ↔ im.boundingBox.contains p = false := ImageRaw.pixel_none_iff hw p
 
+/-- The same claim for every size a `u32` can hold (no `<= i32::MAX` guard) ... -/
+def PixelNoneIffAllSizes : Prop :=
+  ∀ (im : ImageRaw) (p : Pt), validBits im.bits = true →
+    im.data.length = bytesPerRow im.size.w im.bits * im.size.h →
+    (im.pixel p = none ↔ im.boundingBox.contains p = false)
+
+/-- ... is false: `pixel` compares with `width as i32`, which wraps. Witness: the `2^31 x 1` one bit
+image (`2^28` bytes), `pixel((0,0)) = None` although `(0,0)` is inside the bounding box. Replayed on
+the real code by the op `image.wide 1 0 2147483648 1` (see corpus/C09.ops); far outside the display
+scale, so `pixel_none_iff` carries the guard `WF.wI32`/`WF.hI32`. -/
+theorem pixel_none_iff_all_sizes_false : ¬ PixelNoneIffAllSizes := by
+  intro h
+  have h1 := h ⟨1, .le, List.replicate 268435456 0, ⟨2147483648, 1⟩⟩ ⟨0, 0⟩ (by decide)
+    (by rw [List.length_replicate]; decide)
+  rw [ImageRaw.pixel_none_of_width_wraps _ rfl] at h1
+  have h2 : (ImageRaw.boundingBox ⟨1, .le, List.replicate 268435456 0, ⟨2147483648, 1⟩⟩).contains ⟨0, 0⟩ = true := by
+    rw [ImageRaw.contains_boundingBox]; simp only; omega
+  rw [h2] at h1
+  exact absurd (h1.mp rfl) (by decide)
+
 /-- Inside, `pixel((x, y))` is raw pixel `x + y * data_width` of the buffer (rows start at
 multiples of the padded width, i.e. on byte boundaries). -/
 theorem pixel_eq_load (im : ImageRaw) (hw : im.WF) (p : Pt) :
